@@ -10,7 +10,7 @@ use proptest::prelude::*;
 use serde::{Deserialize, Serialize};
 
 pub const KINDS: [Kind; 9] = [Kind::Sma, Kind::Wma, Kind::Sd, Kind::Bb, Kind::Mad, Kind::Cci, Kind::Mfi, Kind::Min, Kind::Max];
-pub const REGIMES: [&str; 5] = ["walk", "alternate", "spikes", "plateaus", "sawtooth"];
+pub const REGIMES: [&str; 7] = ["walk", "alternate", "spikes", "plateaus", "sawtooth", "ramps", "quiet_after_spike"];
 
 #[derive(Clone, Debug, Serialize, Deserialize)]
 pub struct Case {
@@ -33,10 +33,11 @@ pub struct Gen {
     pub saw: usize,
     pub i: usize,
     pub last_bar: Option<(f64, RawBar)>,
+    pub quiet: f64,
 }
 impl Gen {
     pub fn new(seed: u64, regime: usize, base: f64, saw: usize) -> Gen {
-        Gen { st: seed ^ 0x5EED, regime, base, x: base * 30.0, saw: saw.max(2), i: 0, last_bar: None }
+        Gen { st: seed ^ 0x5EED, regime, base, x: base * 30.0, saw: saw.max(2), i: 0, last_bar: None, quiet: 1e-7 }
     }
     pub fn next(&mut self) -> f64 {
         let u = unit(&mut self.st);
@@ -72,7 +73,31 @@ impl Gen {
                 }
                 self.x
             }
-            _ => lo * (1.0 + (self.i % self.saw) as f64 * 0.37),
+            4 => lo * (1.0 + (self.i % self.saw) as f64 * 0.37),
+            5 => {
+                // strictly monotone geometric ramps across the whole band, alternately falling and rising,
+                // each `saw` steps long (the stages choose saw > period: every window element is a candidate
+                // extreme at once)
+                let len = self.saw.max(2);
+                let k = self.i % len;
+                let down = (self.i / len) % 2 == 0;
+                let f = (k as f64 + 0.5 * u) / len as f64;
+                let f = if down { 1.0 - f } else { f };
+                lo * 1000f64.powf(f.clamp(0.0, 1.0))
+            }
+            _ => {
+                // a quiet but not constant level (relative spread 1e-6 .. 1e-9) interrupted by rare visits to
+                // the top of the band and rare changes of level
+                if u > 0.995 {
+                    self.x = lo * (1.0 + 9.0 * unit(&mut self.st));
+                    self.quiet = 10f64.powf(-6.0 - 3.0 * unit(&mut self.st));
+                }
+                if u < 0.01 {
+                    hi * (0.9 + 0.1 * unit(&mut self.st))
+                } else {
+                    (self.x * (1.0 + self.quiet * unit(&mut self.st))).clamp(lo, hi)
+                }
+            }
         };
         self.i += 1;
         v
@@ -98,6 +123,9 @@ impl Gen {
             // keep the saw-tooth exactly periodic
             let j = (self.i % self.saw) as f64 / self.saw as f64;
             (0.3 + 0.4 * j, 0.6 - 0.3 * j, 0.25 + 0.5 * j, 0.5)
+        } else if self.regime >= 5 {
+            // the bar follows the price exactly (no bar noise on top of a ramp or of a quiet level)
+            (0.5, 0.5, 0.5, vu)
         } else {
             (a, b, cpos, vu)
         };
@@ -309,7 +337,7 @@ pub fn check_mode(c: &Case, ctx: &mut Ctx, id: &str, pow2: bool, sign_only: bool
 const PERIODS: [usize; 8] = [1, 2, 3, 5, 14, 50, 200, 1000];
 
 fn strategy(maxlen: usize) -> BoxedStrategy<Case> {
-    ((0..KINDS.len()), period(1000), 0..5usize, -3.0f64..6.0, any::<u64>(), (maxlen / 4)..=maxlen, 0.0f64..1.0)
+    ((0..KINDS.len()), period(1000), 0..7usize, -3.0f64..6.0, any::<u64>(), (maxlen / 4)..=maxlen, 0.0f64..1.0)
         .prop_map(|(ki, n, regime, e, seed, len, su)| {
             let kind = KINDS[ki];
             let heavy = matches!(kind, Kind::Mad | Kind::Cci) && n > 64;
@@ -320,7 +348,7 @@ fn strategy(maxlen: usize) -> BoxedStrategy<Case> {
 }
 
 pub fn run(g: &mut Global) {
-    g.rule = "grid: 9 indicators (SMA, WMA, SD, BB, MAD, CCI, MFI, MIN, MAX) x periods {1,2,3,5,14,50,200,1000} x 5 regimes (random walk, alternating extremes of [m,1000m], spikes, plateaus, saw-tooth) x band bases m, each one uninterrupted stream of 2e5 (quick) / 2e6 (thorough) inputs expanded from (VERIF_SEED, index); random: proptest (kind, period from the mixture to 1000, regime, m log-uniform in [1e-3,1e6], seed, length, saw period in 2..n+3). Oracle: at t <= 3n+50, at about 300 pseudo-randomly chosen later steps and at the end, double-double recomputation over the harness's own window vs the output within tau(t)*M (variance scale for SD/BB; tau*c*scale for CCI/MFI where c <= 1e6, MFI under the ambiguity rule); MIN/MAX exact; variance never negative or NaN at any step. A case is non-trivial if >= 100 sampled steps were well-conditioned; distinct by (kind, period, regime, base, seed, length, saw period).".into();
+    g.rule = "grid: 9 indicators (SMA, WMA, SD, BB, MAD, CCI, MFI, MIN, MAX) x periods {1,2,3,5,14,50,200,1000} x 5 regimes (random walk, alternating extremes of [m,1000m], spikes, plateaus, saw-tooth; two more in the ramps_and_quiet stage and the random stage: strictly monotone ramps across the band longer than the window, and a quiet non-constant level with rare visits to the top of the band) x band bases m, each one uninterrupted stream of 2e5 (quick) / 2e6 (thorough) inputs expanded from (VERIF_SEED, index); random: proptest (kind, period from the mixture to 1000, regime, m log-uniform in [1e-3,1e6], seed, length, saw period in 2..n+3). Oracle: at t <= 3n+50, at about 300 pseudo-randomly chosen later steps and at the end, double-double recomputation over the harness's own window vs the output within tau(t)*M (variance scale for SD/BB; tau*c*scale for CCI/MFI where c <= 1e6, MFI under the ambiguity rule); MIN/MAX exact; variance never negative or NaN at any step. A case is non-trivial if >= 100 sampled steps were well-conditioned; distinct by (kind, period, regime, base, seed, length, saw period).".into();
     g.assumptions = vec![
         "the stream elements are expanded from the generated seed with splitmix64 inside the check (a pure function of the case, so replay is exact; shrinking acts on length/period/regime, not on elements)".into(),
         "O(n)-per-step indicators (MAD, CCI) with n = 1000 run shorter streams in the quick tier".into(),
@@ -368,6 +396,28 @@ pub fn run(g: &mut Global) {
             let u = unit(&mut s);
             let base = 10f64.powf(-3.0 + 9.0 * u);
             Case { kind, n, regime: 4, base: X(base), seed: splitmix(&mut s), len: plen, saw: 2 + sawi % (n + 2) }
+        },
+        &check,
+    );
+    // ramps longer than the window (all of it candidates for the extreme) and quiet-after-spike windows, at
+    // power-of-two periods and their neighbours
+    const RN: [usize; 12] = [14, 31, 32, 33, 64, 65, 128, 200, 256, 257, 512, 1000];
+    g.exhaustive(
+        "ramps_and_quiet",
+        9 * 12 * 2 * 3,
+        &move |i| {
+            let rep = i % 3;
+            let r = i / 3;
+            let regime = 5 + (r % 2) as usize;
+            let r = r / 2;
+            let n = RN[(r % 12) as usize];
+            let kind = KINDS[(r / 12) as usize];
+            let heavy = matches!(kind, Kind::Mad | Kind::Cci) && n > 64;
+            let mut s = seed ^ (i + 5).wrapping_mul(0xE7037ED1A0B428DB);
+            let sd = splitmix(&mut s);
+            let base = [1e-3, 1.0, 1e3][rep as usize];
+            let l = if heavy { 6 * n + 2000 } else { 30 * n + 20_000 };
+            Case { kind, n, regime, base: X(base), seed: sd, len: l, saw: n + 1 + (sd % (2 * n as u64 + 1)) as usize }
         },
         &check,
     );
